@@ -9,6 +9,7 @@ SIM_NOTE = ("trusted base: the simulated kernel simk (documented ET-epoll / non-
             "decoders, gcc ASan/UBSan/LSan; the real cjet sources are compiled unmodified from /repo's working tree and linked with ld --wrap")
 
 UNIT_NOTE = {
+    "C20": "trusted base: harness/authfs (ld --wrap on the file-system calls of the real auth_file.c), the crash model 'effects of completed calls in program order', Python crypt for reference hashes; plus the simulated-kernel base for the daemon-level part",
     "C18": "trusted base: the independent reference DFA in harness/utf8/utf8_harness.c (written from RFC 3629), gcc ASan/UBSan; real utf8_checker.c compiled from /repo's working tree; little-endian word order",
 }
 
@@ -21,6 +22,12 @@ CLAIMS = {
             "Every set/call is tracked from the caller through the forwarded request on the owner's connection to the final answer; deadlines use the simulated clock.", "4 C03"),
     "C04": ("exploration", "reference-map monitor compared after every response, observer replica and get results (runtime monitoring)",
             "A reference map predicts the class of every well-formed request and is compared with a fetch-all observer and get results at every quiescent point.", "4 C04"),
+    "C08": ("exploration", "reference model with groups, allocator fill-byte variation and heap pre-conditioning, password-token scan of all output (runtime monitoring)",
+            "Generated credential files and access declarations; visibility and set/call rights of every peer compared with a reference model; uninitialised memory explored through ASan malloc_fill_byte 0x00/0xff/0xa5/seeded and recycled chunks; every output byte and log line searched for the unique password tokens; local-only add from all origin kinds.", "4 C08"),
+    "C14": ("exploration", "routing ledger on a virtual clock with explicitly composed epoll batches (runtime monitoring + ASan)",
+            "Timeout grid x precedence; armed timerfd value compared with floor(t*1e9); clock stepped to deadline-1ns / deadline; expiry raced against reply / caller and owner FIN/RST inside one harvested batch in both orders on batch sizes 1,2,10,64.", "4 C14"),
+    "C20": ("fault_enumeration", "crash-point / short-write / error enumeration on intercepted file-system calls with fresh-loader probes; authorisation matrix on the daemon",
+            "Every crash point before/after each mutating file-system call of a password change, sampled short-write counts and ENOSPC/EIO/EINTR per call; each on-disk snapshot probed by a fresh process with the real loader (old set or new set, never neither); daemon-level authorisation matrix over user kinds.", "4 C20"),
     "C16": ("exploration", "reference matcher vs get/fetch results of the real daemon over an adversarial operand alphabet (runtime monitoring)",
             "All single matchers x 41 operands x 3 option settings x 40 paths exhaustively, random multi-matcher rules, ill-formed rules and repeated option keys; results of the real daemon compared with an independent Python matcher.", "4 C16"),
     "C18": ("exploration", "differential monitoring of the real validator against an independent RFC 3629 DFA (product exploration, word sweeps)",
